@@ -1,1 +1,501 @@
-"""Property-specific extra checks and searches (x_<name>(outcome, ctx))."""
+"""Property-specific extra checks and searches: x_<name>(outcome, ctx).
+They evaluate the property's own predicate directly on the implementation
+(transcripts of the C driver, special builds) and add concrete failures to
+outcome.direct; they never use the mirror model as the expected value."""
+import json
+import os
+import re
+import unicodedata
+
+from . import core, suites, pyspec as P
+from .core import ROOT, BUILD, COQ, GEN, log
+
+
+def _events(c):
+    if not c or c in ("CRASH", "NOTRUN", "skip", "badhandle", "unknown-op"):
+        return None, []
+    res, ev, _ = core.split_line(c)
+    return res, ev
+
+
+# ------------------------------------------------------------------ C15
+def x_ledger(o, cx):
+    """allocation ledger evaluated on the implementation's own call log"""
+    n = 0
+    for (label, lines, rr) in o.runs:
+        live = set()
+        handles = set()
+        for i, case in enumerate(lines):
+            if case.startswith("reset"):
+                live, handles = set(), set()
+                continue
+            res, ev = _events(rr.c[i])
+            if res is None:
+                continue
+            op = case.split(" ", 1)[0]
+            new = []
+            bad = None
+            for e in ev:
+                f = e.split(":")
+                if f[0] == "alloc" and f[3] != "null":
+                    new.append(int(f[3]))
+                    live.add(int(f[3]))
+                elif f[0] == "free":
+                    if f[2] == "unknown":
+                        bad = "free() of a pointer that is not a live block of the injected allocator (foreign or double free)"
+                    else:
+                        b = int(f[2])
+                        if b not in live:
+                            bad = "block %d freed twice" % b
+                        live.discard(b)
+            m = re.match(r"st=(\d+) seed=(\S+)", res)
+            if m:
+                st, sd = int(m.group(1)), m.group(2)
+                if st == 0 and sd != "-":
+                    handles.add(int(sd))
+                if st != 0 and sd != "-":
+                    bad = "a failing call returned a seed"
+                if "ok=0" in case.split() and any(e.startswith("alloc") for e in ev) and st != 6:
+                    bad = "allocation failed but the status is %d, not POLYSEED_ERR_MEMORY" % st
+                if st != 0:
+                    leaked = [b for b in new if b in live]
+                    if leaked:
+                        bad = "failing call (status %d) left block(s) %s of the injected allocator unfreed" % (st, leaked)
+            if op == "free":
+                h = int(re.search(r"h=(\d+)", case).group(1))
+                handles.discard(h)
+                if h in live:
+                    bad = "polyseed_free did not return the seed's block to the injected free"
+            if op == "freenull" and ev:
+                bad = "polyseed_free(NULL) called injected functions: %s" % ev
+            if not bad and live != handles:
+                bad = "live blocks %s differ from the seeds handed out and not yet freed %s" % (sorted(live), sorted(handles))
+            n += 1
+            if bad:
+                o.direct.append(dict(kind="ledger", suite=label, seq=core.enclosing_sequence(lines, i), what=bad,
+                                     impl=rr.c[i][:1500], expected="balanced ledger"))
+                if len(o.direct) > 20:
+                    return
+                live, handles = set(handles), set(handles)
+    o.stats["ledger"] = dict(ops=n, predicate="alloc/free pairing, no block live after a failing call, MEMORY status on allocation failure, evaluated on the implementation's call log")
+
+
+# ------------------------------------------------------------------ C18
+def x_libc(o, cx):
+    """every call goes through the table injected last; libc exactly for NULL entries"""
+    n = 0
+    for (label, lines, rr) in o.runs:
+        tab = dict(tag="", t=False, a=False, f=False)
+        for i, case in enumerate(lines):
+            if case.startswith("reset"):
+                tab = dict(tag="", t=False, a=False, f=False)
+                continue
+            if case.startswith("inject"):
+                g = lambda k: int(re.search(k + r"=(\d+)", case).group(1))
+                tab = dict(tag="" if g("tag") == 0 else str(g("tag")), t=bool(g("tnull")), a=bool(g("anull")), f=bool(g("fnull")))
+                continue
+            res, ev = _events(rr.c[i])
+            if res is None:
+                continue
+            bad = None
+            for e in ev:
+                f = e.split(":")
+                k = f[0]
+                if k == "alloc":
+                    exp = "l" if tab["a"] else "i" + tab["tag"]
+                    if f[1] != exp:
+                        bad = "memory obtained through `%s`, expected `%s` (l = libc malloc, iN = injected table N)" % (f[1], exp)
+                elif k == "free":
+                    exp = "l" if tab["f"] else "i" + tab["tag"]
+                    if f[1] != exp:
+                        bad = "memory released through `%s`, expected `%s`" % (f[1], exp)
+                elif k == "time":
+                    exp = "l" if tab["t"] else "i" + tab["tag"]
+                    if f[1] != exp:
+                        bad = "clock read through `%s`, expected `%s`" % (f[1], exp)
+                else:
+                    m = re.match(r"(wipe|rand|kdf|nfc|nfkd)(\d*)$", k)
+                    if m and m.group(2) != tab["tag"]:
+                        bad = "%s called through table `%s`, expected the table injected last `%s`" % (m.group(1), m.group(2) or "0", tab["tag"] or "0")
+            n += 1
+            if bad:
+                o.direct.append(dict(kind="deps", suite=label, seq=core.enclosing_sequence(lines, i), what=bad,
+                                     impl=rr.c[i][:1500], expected="all calls through the table injected last"))
+                if len(o.direct) > 20:
+                    return
+    o.stats["deps"] = dict(ops=n, predicate="each logged call was made through the table injected last; libc malloc/free/time exactly when the optional entry was NULL")
+
+
+# ------------------------------------------------------------------ C07
+def x_frozen(o, cx):
+    """word lists, flags and separators equal the pinned release (Ref/langs.json)"""
+    ref = json.load(open(os.path.join(COQ, "Ref", "langs.json")))
+    cur = json.load(open(os.path.join(GEN, "langs.json")))
+    if len(ref) != len(cur):
+        o.direct.append(dict(kind="frozen", what="language registry has %d entries, the pinned release has %d" % (len(cur), len(ref)),
+                             seq=None, impl=str(len(cur)), expected=str(len(ref))))
+        return
+    n = 0
+    for li, (r, c) in enumerate(zip(ref, cur)):
+        for k in ("name", "name_en", "separator", "is_sorted", "has_prefix", "has_accents", "compose"):
+            if r[k] != c[k]:
+                o.direct.append(dict(kind="frozen", what="language %d: %s differs from the pinned release" % (li, k),
+                                     seq=None, impl=str(c[k]), expected=str(r[k])))
+        for j, (a, b) in enumerate(zip(r["words"], c["words"])):
+            n += 1
+            if a != b:
+                # the same phrase restores a different wallet under the pinned list
+                o.direct.append(dict(kind="frozen", what="language %d (%s) index %d: word differs from the pinned release" % (
+                    li, bytes.fromhex(r["name_en"]).decode(), j), seq=None, impl=b, expected=a))
+                if len(o.direct) > 10:
+                    return
+    o.stats["frozen"] = dict(words=n, exhaustive="all words of all languages compared with the committed pinned lists")
+
+
+def x_oracle_words(o, cx):
+    """the normalisation clauses of C07, exhaustively over the lists (Python's unicodedata as normaliser;
+    the C side's utf8proc sees every word in suite S-words)"""
+    n = 0
+    for li, L in enumerate(cx.langs.langs):
+        sep = L["sep"].decode()
+        if unicodedata.normalize("NFKD", sep) != " ":
+            o.direct.append(dict(kind="nfkd", what="separator of language %d does not normalise to one space" % li, seq=None,
+                                 impl=L["sep"].hex(), expected="20"))
+        for j, w in enumerate(L["words"]):
+            n += 1
+            try:
+                s = w.decode("utf-8")
+            except UnicodeDecodeError:
+                o.direct.append(dict(kind="nfkd", what="language %d word %d is not UTF-8" % (li, j), seq=None, impl=w.hex(), expected="UTF-8"))
+                continue
+            if unicodedata.normalize("NFKD", s) != s or unicodedata.normalize("NFKD", unicodedata.normalize("NFC", s)) != s:
+                o.direct.append(dict(kind="nfkd", what="language %d word %d is not stable under NFKD / NFC then NFKD" % (li, j),
+                                     seq=None, impl=w.hex(), expected=unicodedata.normalize("NFKD", s).encode().hex()))
+            if b" " in w or b"\x00" in w or not w or L["sep"] in w:
+                o.direct.append(dict(kind="nfkd", what="language %d word %d contains a separator / is empty" % (li, j), seq=None,
+                                     impl=w.hex(), expected="non-empty, separator-free"))
+            if len(o.direct) > 10:
+                return
+    # literal clause "no word is a prefix of another": known finding for the three-letter words
+    for li, L in enumerate(cx.langs.langs):
+        if not L["has_prefix"]:
+            continue
+        sw = sorted((P.strip_na(w) if L["has_accents"] else w, j) for j, w in enumerate(L["words"]))
+        pairs = []
+        byw = {w: j for (w, j) in sw}
+        for (w, j) in sw:
+            for k in range(1, len(w)):
+                if w[:k] in byw:
+                    pairs.append((byw[w[:k]], j))
+        long_pairs = [(a, b) for (a, b) in pairs if len(sw and (P.strip_na(L["words"][a]) if L["has_accents"] else L["words"][a])) >= 4]
+        if long_pairs:
+            a, b = long_pairs[0]
+            o.direct.append(dict(kind="prefix", what="language %d: word %d (>= 4 letters) is a prefix of word %d: abbreviations are ambiguous" % (li, a, b),
+                                 seq=None, impl=L["words"][a].hex(), expected="prefix-free"))
+        elif pairs:
+            ws = L["words"]
+            # a known finding only if the set of pairs is exactly the listed one
+            key = None
+            try:
+                listed = set()
+                for l in open(os.path.join(ROOT, "findings", "prefix3-%s.txt" % L["name_en"])):
+                    a, b = l.split()[:2]
+                    listed.add((int(a), int(b)))
+                if listed == set(pairs):
+                    key = "prefix3-%s" % L["name_en"]
+            except OSError:
+                pass
+            o.direct.append(dict(kind="prefix", key=key,
+                                 what="language %d: %d pairs where a 3-letter word is a prefix of another (e.g. %s / %s)" % (
+                                     li, len(pairs), ws[pairs[0][0]].decode(), ws[pairs[0][1]].decode()),
+                                 seq=None, impl=str(len(pairs)), expected="0"))
+    o.stats["oracle_words"] = dict(words=n, exhaustive="NFKD / NFC-then-NFKD stability of all words and separators")
+
+
+# ------------------------------------------------------------------ C02
+def x_subst(o, cx):
+    """all 16 x 2047 substitutions and all 120 transpositions of sampled valid phrases on the implementation"""
+    r = cx.rng
+    L = []
+    meta = []
+    for li in ([0, 5] if cx.quick else [0, 3, 5, 8]):
+        ws = cx.langs.langs[li]["words"]
+        sec, b, f = cx.seed(enc=0, feat=0)
+        idx = P.indices(sec, b, 0, 0)
+        L.append("reset")
+        meta.append(None)
+        for pos in range(16):
+            for j in range(2048):
+                if j == idx[pos]:
+                    continue
+                i2 = list(idx)
+                i2[pos] = j
+                L.append("decodex coin=0 lang=%d str=%s ok=1" % (li, b" ".join(ws[k] for k in i2).hex()))
+                meta.append(("substitution of word %d" % (pos + 1)))
+                if len(L) % 800 == 0:
+                    L.append("reset")
+                    meta.append(None)
+        for a in range(16):
+            for c in range(a + 1, 16):
+                if idx[a] == idx[c]:
+                    continue
+                i2 = list(idx)
+                i2[a], i2[c] = i2[c], i2[a]
+                L.append("decodex coin=0 lang=%d str=%s ok=1" % (li, b" ".join(ws[k] for k in i2).hex()))
+                meta.append("transposition of words %d and %d" % (a + 1, c + 1))
+    rr = core.run_cases(L, with_model=False)
+    n = 0
+    for i, case in enumerate(L):
+        if meta[i] is None or rr.c[i] is None:
+            continue
+        n += 1
+        res = core.split_line(rr.c[i])[0] if rr.c[i] != "CRASH" else "CRASH"
+        if not res.startswith("st=3"):
+            o.direct.append(dict(kind="subst", suite="subst", seq=["reset", case], what="%s is not reported as a checksum error" % meta[i],
+                                 impl=rr.c[i][:300], expected="st=3 (POLYSEED_ERR_CHECKSUM)"))
+            if len(o.direct) > 10:
+                break
+    o.evaluations += n
+    o.stats["subst"] = dict(ops=n, predicate="every single-word substitution and every transposition of unequal words of a valid phrase decodes to POLYSEED_ERR_CHECKSUM",
+                            exhaustive="16 x 2047 substitutions and all transpositions per sampled phrase")
+
+
+# ------------------------------------------------------------------ C16
+def scan_suite(cx):
+    """ops with the secret material to look for on the dead stack afterwards"""
+    r = cx.rng
+    L = []
+
+    def windows(b, n=8, step=None):
+        b = bytes(b)
+        step = step or max(1, n // 2)
+        return [b[i:i + n].hex() for i in range(0, max(1, len(b) - n + 1), step) if len(b[i:i + n]) >= min(n, 6)]
+
+    def idx_needles(idx):
+        le = [int(x).to_bytes(8, "little") for x in idx]
+        return [(le[i] + le[i + 1]).hex() for i in range(0, 15, 2)] + [(le[i] + le[i + 1]).hex() for i in range(1, 15, 4)]
+
+    for rep in range(cx.n(6, 40)):
+        for li in ([0, 1, 2, 3, 8] if cx.quick else range(cx.nl)):
+            Lg = cx.langs.langs[li]
+            sec, b, f = cx.seed(enc=0, feat=0)
+            # avoid needles that are too short or too regular
+            idx = P.indices(sec, b, 0, 0)
+            ph = cx.langs.phrase(li, idx)
+            phd = cx.langs.phrase_nfkd(li, idx)
+            nd_sec = windows(sec, 8, 5)
+            nd_idx = idx_needles(idx)
+            nd_ph = windows(phd, 12, 16) + [phd[-12:].hex()] + windows(ph, 12, 24)[:6]
+            L += ["reset", "load buf=%s ok=1 needles=%s" % (P.store(sec, b, 0).hex(), ",".join(nd_sec + nd_idx))]
+            L.append("encode h=0 lang=%d coin=0 needles=%s" % (li, ",".join(nd_ph + nd_idx + nd_sec)))
+            L.append("store h=0 needles=%s" % ",".join(nd_sec))
+            L.append("keygen h=0 coin=0 size=32 needles=%s" % ",".join(nd_sec))
+            for s, okk in ((ph, 1), (ph, 0)):
+                L.append("decode coin=0 str=%s ok=%d needles=%s" % (s.hex(), okk, ",".join(nd_ph + nd_idx + nd_sec)))
+                L.append("decodex coin=0 lang=%d str=%s ok=%d needles=%s" % (li, s.hex(), okk, ",".join(nd_ph + nd_idx + nd_sec)))
+            # checksum error exit, unsupported exit, word-count exit, language exit
+            i2 = list(idx)
+            i2[5] ^= 3
+            bad = cx.langs.phrase(li, i2)
+            nd2 = idx_needles(i2) + windows(cx.langs.phrase_nfkd(li, i2), 12, 24)[:8]
+            L.append("decode coin=0 str=%s ok=1 needles=%s" % (bad.hex(), ",".join(nd2)))
+            L.append("decodex coin=0 lang=%d str=%s ok=1 needles=%s" % (li, bad.hex(), ",".join(nd2)))
+            i3 = P.indices(sec, b, 8, 0)
+            un = cx.langs.phrase(li, i3)
+            nd3 = idx_needles(i3) + windows(cx.langs.phrase_nfkd(li, i3), 12, 24)[:8] + nd_sec
+            L.append("decode coin=0 str=%s ok=1 needles=%s" % (un.hex(), ",".join(nd3)))
+            L.append("decodex coin=0 lang=%d str=%s ok=1 needles=%s" % (li, un.hex(), ",".join(nd3)))
+            L.append("decode coin=0 str=%s ok=1 needles=%s" % ((ph + b" x").hex(), ",".join(nd_ph)))
+            words = ph.split(Lg["sep"]) if Lg["sep"] in ph else ph.split(b" ")
+            L.append("decodex coin=0 lang=%d str=%s ok=1 needles=%s" % (li, (b" ".join(words[:15] + [b"qqqqqqqq"])).hex(), ",".join(nd_ph[:4] + nd_idx[:3])))
+            # multiple-language exit where available is left to suite S-auto; password operation
+            pw = r.choice([b"correct horse battery", "pässwörd-långt-lösen".encode(), "パスワードは秘密".encode()])
+            pwn = unicodedata.normalize("NFKD", pw.decode()).encode()
+            mask = P.oracle_kdf(pwn, P.MASK_SALT, 10000, 32)
+            sec2 = [x ^ y for x, y in zip(sec, mask[:19])]
+            sec2[18] &= 63
+            L.append("crypt h=0 pw=%s needles=%s" % (pw.hex(), ",".join(windows(pwn, 8, 6)[:6] + windows(mask, 8, 8) + nd_sec + windows(sec2, 8, 5) + idx_needles(P.indices(sec2, b, 16, 0)))))
+            L.append("create feat=0 rand=%s clock=%d ok=1 needles=%s" % (bytes(sec).hex(), P.EPOCH, ",".join(nd_sec + nd_idx)))
+            L.append("free h=0 needles=%s" % ",".join(windows(sec2, 8, 5)))
+    return L
+
+
+def x_stackscan(o, cx):
+    """dead-stack scan after every API call: no copy of secret, indices, phrase, password or mask remains"""
+    lines = scan_suite(cx)
+    total = 0
+    for variant in (["o0", "o2"] if cx.quick else ["o0", "o2", "o3"]):
+        with core.Lock():
+            core.build_cdriver(variant)
+        rr = core.run_cases(lines, variant=variant, mode="scan", with_model=False)
+        for i, case in enumerate(lines):
+            c = rr.c[i]
+            if not c or case.startswith("reset"):
+                continue
+            total += 1
+            m = re.findall(r"leak=(\d+)@(\d+)", c)
+            if m:
+                nd = re.search(r"needles=(\S+)", case).group(1).split(",")
+                k = int(m[0][0])
+                o.direct.append(dict(kind="stack-residue", suite="stackscan", variant=variant, seq=core.enclosing_sequence(lines, i),
+                                     what="secret material (needle %d = %s) remains in the dead stack %s bytes below the caller after the call returned (build %s)" % (
+                                         k, nd[k] if k < len(nd) else "?", m[0][1], variant),
+                                     impl=c[:600], expected="no residue", mode="scan"))
+                if len([d for d in o.direct if d.get("kind") == "stack-residue"]) > 6:
+                    break
+        for (ln, txt) in rr.crashes:
+            o.notes.append("stack-scan driver (%s) crashed at op %d: %s" % (variant, ln, txt[-300:]))
+    o.evaluations += total
+    o.stats["stackscan"] = dict(ops=total, predicate="after each call, run on a private pre-patterned stack, no 8-byte window of the secret, password or mask, no 12-byte window of the phrase and no two adjacent word indices remain below the caller's frame",
+                                builds=["o0", "o2"] if cx.quick else ["o0", "o2", "o3"])
+
+
+# ------------------------------------------------------------------ C19
+def x_sgn(o, cx):
+    """both signedness settings: each build against the model at the matching setting, and against each other"""
+    from . import runner
+    with core.Lock():
+        core.build_cdriver("asan_uchar")
+        core.build_cdriver("asan_schar")
+    names = ["words", "token", "split", "auto", "crypt"]
+    for name in names:
+        cxa = suites.Ctx(GEN, o.seed, o.tier)
+        lines = suites.SUITES[name](cxa)
+        ru = runner.run_suite(o, cxa, name, variant="asan_uchar", sgn=False, lines=lines, label=name + "@unsigned")
+        rs = runner.run_suite(o, cxa, name, variant="asan_schar", sgn=True, lines=lines, label=name + "@signed")
+        diffs = 0
+        for i, case in enumerate(lines):
+            a, b = ru.c[i], rs.c[i]
+            if a is None or b is None:
+                continue
+            ra = core.split_line(a)[0] if a != "CRASH" else a
+            rb = core.split_line(b)[0] if b != "CRASH" else b
+            ea = sorted(core.canon_c_event(e) for e in core.split_line(a)[1] if e.startswith(("kdf", "nf")))
+            eb = sorted(core.canon_c_event(e) for e in core.split_line(b)[1] if e.startswith(("kdf", "nf")))
+            if ra != rb or ea != eb:
+                diffs += 1
+                if diffs <= 5:
+                    o.direct.append(dict(kind="signedness", suite=name, seq=core.enclosing_sequence(lines, i),
+                                         what="result depends on the signedness of plain char",
+                                         impl="-funsigned-char: " + a[:500], expected="-fsigned-char: " + b[:500], variant="asan_uchar"))
+        o.stats[name + "@unsigned"]["transcript_differences_vs_signed"] = diffs
+
+
+# ------------------------------------------------------------------ C20
+def x_frame(o, cx):
+    """static storage of the library is read-only outside set-up: any write faults at the writing instruction"""
+    exe = build_frame_driver()
+    cxa = suites.Ctx(GEN, o.seed, o.tier)
+    lines = [l for l in suites.s_seq(cxa, count=cx.n(150, 1500)) if not l.startswith("inject") or " anull=0 fnull=0" in l]
+    # no libc wraps in this build: keep all entries injected
+    lines = [re.sub(r"tnull=1", "tnull=0", l) for l in lines]
+    lines += suites.s_len(cxa)[:400]
+    rr = core.run_cases(lines, variant="frame", with_model=False)
+    n = sum(1 for c in rr.c if c)
+    for (ln, txt) in rr.crashes:
+        o.direct.append(dict(kind="static-write", suite="frame", seq=core.enclosing_sequence(lines, ln - 1), variant="frame",
+                             what="the call wrote to the library's static storage (or crashed) outside inject/enable_features: not re-entrant",
+                             impl=txt[-1200:], expected="no write to static storage"))
+        if len(o.direct) > 5:
+            break
+    o.evaluations += n
+    o.stats["frame"] = dict(ops=n, predicate="library built as a shared object; its writable segments are mprotect()ed read-only after set-up; every non-set-up op runs without a fault",
+                            writable_symbols=frame_symbols())
+
+
+def build_frame_driver():
+    """libps.so from the project's sources + the C driver in FRAME mode"""
+    so = os.path.join(BUILD, "libpsframe.so")
+    exe = os.path.join(BUILD, "cdriver.frame")
+    hsrc = [os.path.join(ROOT, "harness", "cdriver.c"), os.path.join(ROOT, "harness", "oracle.c")]
+    h = core.file_hash(core.repo_inputs() + hsrc, "frame")
+    with core.Lock():
+        if core.stamp_ok("cdriver.frame", h) and os.path.exists(exe) and os.path.exists(so):
+            return exe
+        rc, out = core.sh(["gcc", "-O2", "-g", "-w", "-fPIC", "-shared", "-DNDEBUG", "-DPOLYSEED_SHARED", "-D" + core.GUARD,
+                           "-iquote", os.path.join(core.REPO, "src"), "-I", os.path.join(core.REPO, "include")]
+                          + core.repo_sources() + ["-Wl,-z,now", "-o", so], timeout=600)
+        if rc != 0:
+            raise core.BuildError("shared-object build of the library failed", out)
+        rc, out = core.sh(["gcc", "-O1", "-g", "-w", "-DFRAME_MODE", "-DNDEBUG", "-I", os.path.join(core.REPO, "include")] + hsrc
+                          + [so, "-lutf8proc", "-Wl,--wrap=malloc,--wrap=free,--wrap=time", "-Wl,-rpath," + BUILD, "-o", exe], timeout=600)
+        if rc != 0:
+            raise core.BuildError("frame driver does not build", out)
+        core.stamp_set("cdriver.frame", h)
+    return exe
+
+
+def frame_symbols():
+    so = os.path.join(BUILD, "libpsframe.so")
+    rc, out = core.sh("nm -S %s | grep -i ' [bd] ' | grep -v -E '(completed|dtor|__dso|_edata|__bss|__TMC|_end|__data)'" % so)
+    return [" ".join(l.split()[1:]) for l in out.strip().split("\n") if l.strip()][:20]
+
+
+def x_threads(o, cx):
+    """ThreadSanitizer: N threads on disjoint seeds, per-thread transcripts against a serial run"""
+    src = os.path.join(ROOT, "harness", "thrdriver.c")
+    exe = os.path.join(BUILD, "thrdriver")
+    h = core.file_hash(core.repo_inputs() + [src, os.path.join(ROOT, "harness", "oracle.c")], "tsan")
+    with core.Lock():
+        if not (core.stamp_ok("thrdriver", h) and os.path.exists(exe)):
+            rc, out = core.sh(["gcc", "-O1", "-g", "-w", "-fsanitize=thread", "-DNDEBUG"] + core.INC +
+                              [src, os.path.join(ROOT, "harness", "oracle.c")] + core.repo_sources() +
+                              ["-lutf8proc", "-lpthread", "-o", exe], timeout=600)
+            if rc != 0:
+                raise core.BuildError("thread driver does not build", out)
+            core.stamp_set("thrdriver", h)
+    nthreads = 8 if cx.quick else 16
+    iters = 40 if cx.quick else 400
+    rc, out = core.sh([exe, str(nthreads), str(iters), str(o.seed)], timeout=900,
+                      env={"TSAN_OPTIONS": "halt_on_error=0:report_signal_unsafe=0:exitcode=66"})
+    m = re.search(r"threads=(\d+) ops=(\d+) mismatches=(\d+)", out)
+    ops = int(m.group(2)) if m else 0
+    mism = int(m.group(3)) if m else -1
+    races = len(re.findall(r"WARNING: ThreadSanitizer: data race", out))
+    o.evaluations += ops
+    o.stats["threads"] = dict(threads=nthreads, iterations=iters, ops=ops, mismatches=mism, tsan_reports=races)
+    if races or mism != 0 or rc != 0:
+        o.direct.append(dict(kind="race", suite="threads", seq=["thrdriver %d %d %d" % (nthreads, iters, o.seed)], variant="tsan",
+                             what="ThreadSanitizer report(s): %d, per-thread results differing from the serial run: %d, exit %d" % (races, mism, rc),
+                             impl=out[-2500:], expected="no data race, transcripts equal to the serial run"))
+
+
+# ------------------------------------------------------------------ C14
+def x_fuzzbuild(o, cx):
+    """assertions-on build (the repository's own asserts as oracles) on the input-facing suites; thorough: libFuzzer"""
+    from . import runner
+    with core.Lock():
+        core.build_cdriver("dbg")
+    cxa = suites.Ctx(GEN, o.seed + 7, o.tier)
+    runner.run_suite(o, cxa, "split", variant="dbg", label="split@assert")
+
+
+# ------------------------------------------------------------------ C12
+def x_pwnfkd(o, cx):
+    """the KDF receives NFKD(password) without terminator (Python's unicodedata as independent normaliser)"""
+    n = 0
+    for (label, lines, rr) in o.runs:
+        for i, case in enumerate(lines):
+            if not case.startswith("crypt"):
+                continue
+            res, ev = _events(rr.c[i])
+            if res is None:
+                continue
+            pw = bytes.fromhex(re.search(r"pw=([0-9a-f]*)", case).group(1))
+            try:
+                want = unicodedata.normalize("NFKD", pw.decode("utf-8")).encode("utf-8")
+            except UnicodeDecodeError:
+                continue
+            kd = [e.split(":") for e in ev if e.startswith("kdf")]
+            n += 1
+            if len(kd) != 1:
+                o.direct.append(dict(kind="kdf", suite=label, seq=core.enclosing_sequence(lines, i), what="crypt made %d KDF calls" % len(kd),
+                                     impl=rr.c[i][:600], expected="exactly one"))
+                continue
+            got = bytes.fromhex(kd[0][1])
+            if got != want or int(kd[0][2]) != len(want):
+                key = "long-password" if len(want) >= cx.STR_SIZE and want.startswith(got) and len(got) >= cx.STR_SIZE - 4 else None
+                o.direct.append(dict(kind="kdf", key=key, suite=label, seq=core.enclosing_sequence(lines, i),
+                                     what="the KDF password is not NFKD(password): %d bytes passed, NFKD has %d" % (len(got), len(want)),
+                                     impl=kd[0][1][:200] + " len=" + kd[0][2], expected=want.hex()[:200] + " len=%d" % len(want)))
+    o.stats["pwnfkd"] = dict(ops=n, predicate="logged KDF password == NFKD(password) computed by Python's unicodedata")
